@@ -494,6 +494,11 @@ class ExprMixin:
                 if h.kt is None:
                     return z3.BoolVal(False)
                 if isinstance(x, VOpt) and h.kt[0] != 'opt':
+                    try:
+                        if type_of_val(x.inner, st) != h.kt and not (h.kt[0] == 'int' and isinstance(x.inner, (VInt, VBool))):
+                            return z3.BoolVal(False)        # a value of another type than the container holds: not a member
+                    except TypeError:
+                        pass
                     return z3.And(z3.Not(x.isnone), z3.Select(h.mem, to_z3(x.inner, h.kt)))
                 if isinstance(x, VNone) and h.kt[0] != 'opt':
                     return z3.BoolVal(False)
